@@ -1,3 +1,4 @@
+import Swat4.Lemmas.FactsExtra09
 import Swat4.Lemmas.LockFencing
 import Swat4.Gen.Facts
 import Swat4.Lemmas.StoreSpecRefine
